@@ -54,6 +54,7 @@ type Runtime struct {
 	ReturnSnap    *simrt.Inode
 	ReturnRunning []string // keys of commands still in flight when Run returned
 	WF            *sp.Workflow
+	WF2           *sp.Workflow // the second workflow (nodes of stage 1), if any
 	PreRound      []*simrt.Inode // snapshot right before each further in-process round
 	api           int            // tape-chosen variant of equivalent API calls (see Build)
 	nconn         int
@@ -303,10 +304,23 @@ func Build(w *WF, rt *Runtime) *sp.Workflow {
 	rt.api, rt.nconn = api, 0
 	connect, connectP := rt.connect, rt.connectP
 	rt.WF = wf
+	// nodes of stage 1 live in a second Workflow object, built here as well
+	wf0 := wf
+	var wf1 *sp.Workflow
+	for i := range w.Nodes {
+		if w.Nodes[i].Stage > 0 && wf1 == nil {
+			wf1 = sp.NewWorkflow(w.Name+"_second", w.MaxTasks)
+		}
+	}
+	rt.WF2 = wf1
 	procs := make([]outPorter, len(w.Nodes))
 	plain := make([]*sp.Process, len(w.Nodes))
 	for i := range w.Nodes {
 		n := &w.Nodes[i]
+		wf := wf0
+		if n.Stage > 0 {
+			wf = wf1
+		}
 		switch n.Kind {
 		case KFileSrc:
 			procs[i] = components.NewFileSource(wf, n.Name, n.Files...)
@@ -340,6 +354,10 @@ func Build(w *WF, rt *Runtime) *sp.Workflow {
 	recN := 0
 	for i := range w.Nodes {
 		n := &w.Nodes[i]
+		wf := wf0
+		if n.Stage > 0 {
+			wf = wf1
+		}
 		if n.Kind == KProc {
 			p := plain[i]
 			for _, in := range n.Ins {
@@ -392,6 +410,10 @@ func Build(w *WF, rt *Runtime) *sp.Workflow {
 		n := &w.Nodes[i]
 		if !n.Rec || n.Kind != KProc {
 			continue
+		}
+		wf := wf0
+		if n.Stage > 0 {
+			wf = wf1
 		}
 		for _, o := range n.Outs {
 			if consumed[Edge{i, o.Name}] || o.Stream {
@@ -469,6 +491,9 @@ func Program(w *WF, rt *Runtime) {
 		wf.RunToProcs(ps...)
 	default:
 		wf.RunTo(w.RunTo...)
+	}
+	if rt.WF2 != nil && len(w.RunTo) == 0 && !w.RunToNone {
+		rt.WF2.Run()
 	}
 	s := simrt.S
 	for _, del := range w.Rounds {
